@@ -45,8 +45,27 @@ def dispatch_predicates(ctx, D):
         raise AnalysisError("symbol dispatch chain not found")
     tests = []
     cur = chain[0]
+    import copy
+    from rules.shared import resolve_local
+
+    def named(test):
+        """a predicate written on a local that names a slice of the symbol (kind = symbol[-4:-2]) is the predicate on the slice"""
+        test = copy.deepcopy(test)
+        for n in ast.walk(test):
+            for fld, val in ast.iter_fields(n):
+                vals = val if isinstance(val, list) else [val]
+                for j, x in enumerate(vals):
+                    if isinstance(x, ast.Name) and isinstance(x.ctx, ast.Load) and x.id in D.locals and x.id not in D.params:
+                        e = resolve_local(D, x)
+                        if e is not x and isinstance(e, ast.Subscript) and isinstance(e.slice, ast.Slice) and isinstance(e.value, ast.Name):
+                            e = ast.copy_location(copy.deepcopy(e), x)
+                            if isinstance(val, list):
+                                val[j] = e
+                            else:
+                                setattr(n, fld, e)
+        return test
     while True:
-        tests.append(cur.test)
+        tests.append(named(cur.test))
         if len(cur.orelse) == 1 and isinstance(cur.orelse[0], ast.If):
             cur = cur.orelse[0]
         else:
@@ -140,8 +159,15 @@ def run(ctx, rep):
     # the suffix test of the 'expl' path
     suffix = None
     for n in own_nodes(mod.node):
-        if isinstance(n, ast.If) and isinstance(n.test, ast.Compare) and isinstance(n.test.left, ast.Subscript):
-            c = n.test.comparators[0]
+        c = None
+        if isinstance(n, ast.If) and isinstance(n.test, ast.Compare) and isinstance(n.test.left, ast.Subscript) \
+                and isinstance(n.test.left.slice, ast.Slice) and len(n.test.ops) == 1 and isinstance(n.test.ops[0], (ast.Eq, ast.NotEq)):
+            c = n.test.comparators[0]                                  # symbol[-5:] == "expl]"
+        elif isinstance(n, ast.If):
+            t_ = n.test.operand if isinstance(n.test, ast.UnaryOp) and isinstance(n.test.op, ast.Not) else n.test
+            if isinstance(t_, ast.Call) and isinstance(t_.func, ast.Attribute) and t_.func.attr == "endswith" and len(t_.args) == 1:
+                c = t_.args[0]                                         # symbol.endswith("expl]")
+        if c is not None:
             if isinstance(c, ast.Constant) and isinstance(c.value, str):
                 suffix = c.value
             elif isinstance(c, ast.Name) and c.id not in mod.locals:
@@ -214,6 +240,39 @@ def run(ctx, rep):
             if exc not in ("ValueError", "IndexError") else None
     if not rewr:
         rep.ob("M3", False, mod.node, mod, construct="'expl' rewrite", witness="no rewriting path for [..expl] atoms found", key="expl/missing")
+    # M3b: what is handed to the atom reader is "[" + the symbol's own characters between its bond prefix and the suffix + "]":
+    # one constant-bounds slice of the argument itself, the upper bound cutting exactly the suffix (a character-set strip such
+    # as rstrip("expl]") also eats the end of the element: [Seexpl] -> S)
+    n_ra = 0
+    for a, st in reader_args:
+        n_ra += 1
+        probs = []
+        t = None
+        if isinstance(a, Str) and len(a.parts) == 3 and a.parts[0] == ("lit", "[") and a.parts[2] == ("lit", "]") and a.parts[1][0] == "sym":
+            t = a.parts[1][1]
+        o = eng.origin.get(t) if t is not None else None
+        if o is None and isinstance(t, tuple) and len(t) == 2 and t[0] == "unk":
+            o = eng.origin.get(t[1])
+        if not (o and o[0] == "slice" and isinstance(o[1], Unk) and o[1].term == ("symbol",)):
+            probs.append("the text handed to the atom reader is not '[' + one slice of the symbol itself + ']'")
+        else:
+            bounds = o[4]
+            lo = bounds[0] if o[2] else None
+            hi = bounds[-1] if o[3] else None
+            from sa.lin import ge as _ge, le as _le
+            ok_hi = isinstance(hi, Num) and hi.lin.is_const() and int(hi.lin.k) == -len(suffix)
+            ok_lo = isinstance(lo, Num) and ((lo.lin.is_const() and int(lo.lin.k) in (1, 2)) or
+                                             (st.entails(_ge(lo.lin, 1)) and st.entails(_le(lo.lin, 2))))
+            if not ok_hi:
+                probs.append("the slice handed to the atom reader does not end exactly in front of %r" % suffix)
+            elif not ok_lo and isinstance(lo, Num) and lo.lin.is_const():
+                probs.append("the slice handed to the atom reader does not start behind '[' and the optional bond character")
+            elif not ok_lo:
+                rep.note("M3b: the start of the atom text handed to the reader is not a constant (%s): start not decided" % (lo,))
+        rep.ob("M3", not probs, mod.node, mod, construct="text handed to the SMILES atom reader on the 'expl' path", how="'[' + symbol[1|2 : -%d] + ']'" % len(suffix),
+               witness="; ".join(probs) or None, nontrivial=True, key="expl/reader-arg/" + ("ok" if not probs else "bad"))
+    if rewr and not n_ra:
+        rep.ob("M3", False, mod.node, mod, construct="'expl' rewrite", witness="the atom reader is never called on the rewriting path", key="expl/reader-arg/missing")
     # the rewrite goes through the SMILES reader and the standard printer
     callees = {ctx.db.funcs[q].name for q in ctx.cg.region(mod)}
     ok = {"smiles_to_atom", "atom_to_smiles"} <= callees
@@ -376,6 +435,8 @@ def check_flag(ctx, rep, f, name, mod, seen):
                     continue
                 if isinstance(st, ast.Expr) and isinstance(st.value, ast.Call) and unparse(st.value.func) in ("warnings.warn", "warn"):
                     kinds.append("warn")
+                    continue
+                if isinstance(st, ast.Pass):
                     continue
                 body_ok = False
                 why = "statement %r is controlled by the compatible flag" % unparse(st)[:60]
